@@ -602,3 +602,77 @@ func List(r *core.Rand, max int, o Opts) []rtcp.Packet {
 	}
 	return out
 }
+
+// BigPacket draws a well-formed value whose encoding has 65536 octets or more (but fits the
+// 16-bit length field): the sizes at which 16-bit byte arithmetic wraps.
+func BigPacket(r *core.Rand) rtcp.Packet {
+	switch r.Intn(8) {
+	case 0: // the largest APP the library accepts: exactly 64 KiB on the wire
+		d := r.Bytes(r.Pick(65521, 65522, 65523, 65520, 65519))
+		return &rtcp.ApplicationDefined{SubType: uint8(r.Intn(32)), SSRC: r.B32(), Name: "big!", Data: d}
+	case 1: // SDES: many long items
+		s := &rtcp.SourceDescription{}
+		for i := 0; i < 31; i++ {
+			c := rtcp.SourceDescriptionChunk{Source: r.B32()}
+			for j := r.Pick(9, 10, 12, 30); j > 0; j-- {
+				c.Items = append(c.Items, rtcp.SourceDescriptionItem{Type: rtcp.SDESType(1 + r.Intn(8)), Text: string(r.Bytes(250 + r.Intn(6)))})
+			}
+			s.Chunks = append(s.Chunks, c)
+		}
+		return s
+	case 2: // XR with one large block
+		x := &rtcp.ExtendedReport{SenderSSRC: r.B32()}
+		if r.Bool() {
+			x.Reports = append(x.Reports, &rtcp.UnknownReportBlock{XRHeader: rtcp.XRHeader{BlockType: rtcp.BlockTypeType(8 + r.Intn(200))}, Bytes: r.Bytes(4 * r.Pick(16383, 16384, 20000, 40000, 65530))})
+		} else {
+			cs := make([]rtcp.Chunk, 2*r.Pick(16381, 16382, 20000, 50000))
+			for i := range cs {
+				cs[i] = rtcp.Chunk(r.U16())
+			}
+			x.Reports = append(x.Reports, &rtcp.LossRLEReportBlock{T: uint8(r.Intn(16)), SSRC: r.B32(), Chunks: cs})
+		}
+		x.Reports = append(x.Reports, &rtcp.ReceiverReferenceTimeReportBlock{NTPTimestamp: r.U64()})
+		return x
+	case 3: // CCFB with several maximal blocks
+		p := &rtcp.CCFeedbackReport{SenderSSRC: r.B32(), ReportTimestamp: r.B32()}
+		for i := r.Pick(2, 3, 7); i > 0; i-- {
+			mb := make([]rtcp.CCFeedbackMetricBlock, r.Pick(16384, 16383, 16382))
+			for j := 0; j < len(mb); j += 1 + r.Intn(97) {
+				mb[j] = rtcp.CCFeedbackMetricBlock{Received: true, ECN: rtcp.ECN(r.Intn(4)), ArrivalTimeOffset: r.U16() & 0x1FFF}
+			}
+			p.ReportBlocks = append(p.ReportBlocks, rtcp.CCFeedbackReportBlock{MediaSSRC: r.B32(), BeginSequence: uint16(r.Intn(40000)), MetricBlocks: mb})
+		}
+		return p
+	case 4: // raw frame
+		words := r.Pick(16383, 16384, 16385, 32768, 65535)
+		b := make([]byte, 4+4*words)
+		copy(b[4:], r.Bytes(512))
+		b[0], b[1], b[2], b[3] = 0x80|byte(r.Intn(32)), byte(r.Pick(199, 208, 192)), byte(words>>8), byte(words)
+		rp := rtcp.RawPacket(b)
+		return &rp
+	case 5: // SR / RR with a large profile extension
+		e := r.Bytes(4 * r.Pick(16200, 16383, 16384, 30000, 65000))
+		if r.Bool() {
+			return &rtcp.SenderReport{SSRC: r.B32(), NTPTime: r.B64(), Reports: []rtcp.ReceptionReport{Report(r)}, ProfileExtensions: e}
+		}
+		return &rtcp.ReceiverReport{SSRC: r.B32(), Reports: []rtcp.ReceptionReport{Report(r), Report(r)}, ProfileExtensions: e}
+	case 6: // FIR with thousands of entries
+		p := &rtcp.FullIntraRequest{SenderSSRC: r.B32(), MediaSSRC: r.B32()}
+		for i := r.Pick(8190, 8191, 8192, 20000); i > 0; i-- {
+			p.FIR = append(p.FIR, rtcp.FIREntry{SSRC: r.U32(), SequenceNumber: r.U8()})
+		}
+		return p
+	default: // XR with many DLRR sub-blocks and receipt times
+		x := &rtcp.ExtendedReport{SenderSSRC: r.B32()}
+		rs := make([]rtcp.DLRRReport, r.Pick(5461, 5462, 9000))
+		for i := range rs {
+			rs[i] = rtcp.DLRRReport{SSRC: r.U32(), LastRR: r.U32(), DLRR: r.U32()}
+		}
+		ts := make([]uint32, r.Pick(16381, 16382, 20000))
+		for i := range ts {
+			ts[i] = r.U32()
+		}
+		x.Reports = []rtcp.ReportBlock{&rtcp.DLRRReportBlock{Reports: rs}, &rtcp.PacketReceiptTimesReportBlock{T: 3, SSRC: r.B32(), ReceiptTime: ts}}
+		return x
+	}
+}
